@@ -150,7 +150,7 @@ def gen_pre_case(rng, big_path):
         # and whether it fails depends on timing — not generated
         flag = None
     return dict(kind=kind, content=content, flag=flag, code=code, threads=rng.choice([1, 1, 3]),
-                stderr_kb=rng.choice([1, 64, 200, 1024, 4096]), when=when)
+                stderr_kb=rng.choice([1, 64, 200, 1024, 4096]), when=when, no_messages=rng.random() < 0.3)
 
 
 def pre_script_and_child(c, big_bytes):
@@ -220,7 +220,13 @@ def check_pre(ctx, rng, n, big_path, big_bytes):
              dict(kind="noisy_ok", content=b"a hit\nb\nc hit\n", flag="-c", code=0, threads=3, stderr_kb=200, when="after"),
              dict(kind="noisy_ok", content=b"a hit\nb\nc hit\n", flag=None, code=0, threads=1, stderr_kb=2048, when="while"),
              dict(kind="noisy_ok", content=b"a hit\nb\nc hit\n", flag=None, code=0, threads=1, stderr_kb=2048, when="after"),
-             dict(kind="missing", content=b"a hit\n", flag=None, code=0, threads=3, stderr_kb=1)] + cases
+             dict(kind="missing", content=b"a hit\n", flag=None, code=0, threads=3, stderr_kb=1),
+             # --no-messages silences the diagnostic, never the status
+             dict(kind="missing", content=b"a hit\n", flag=None, code=0, threads=1, stderr_kb=1, no_messages=True),
+             dict(kind="fail_after", content=b"a hit\n", flag=None, code=3, threads=1, stderr_kb=1, no_messages=True),
+             dict(kind="fail_after_silent", content=b"zzz\n", flag="-c", code=1, threads=3, stderr_kb=1, no_messages=True),
+             dict(kind="fail_before", content=b"a hit\n", flag="-q", code=2, threads=1, stderr_kb=1, no_messages=True),
+             dict(kind="echo", content=b"a hit\n", flag=None, code=0, threads=1, stderr_kb=1, no_messages=True)] + cases
     jobs = []
     for i, c in enumerate(cases):
         d = os.path.join(root, "c%d" % i)
@@ -244,7 +250,8 @@ def check_pre(ctx, rng, n, big_path, big_bytes):
         for x in ("input.txt", "plain.txt"):
             os.chmod(os.path.join(d, x), 0o644)
         implicit = c["kind"] == "binary"
-        base = ["--color", "never", "-j", str(c["threads"])] + ([c["flag"]] if c["flag"] else [])
+        base = ["--color", "never", "-j", str(c["threads"])] + ([c["flag"]] if c["flag"] else []) + \
+            (["--no-messages"] if c.get("no_messages") else [])
         if implicit:
             # the file is found by directory traversal: binary detection may quit at the NUL
             os.mkdir(os.path.join(d, "t"))
@@ -279,6 +286,8 @@ def check_pre(ctx, rng, n, big_path, big_bytes):
     mo = vlib.model(1801, mlines)
     stat = ctx.cov.setdefault("pre_kinds", {})
     for c, (r, ref), ml, m in zip(cases, res, mlines, mo):
+        if c.get("no_messages"):
+            ctx.cov["pre_runs_with_no_messages"] = ctx.cov.get("pre_runs_with_no_messages", 0) + 1
         key = "%s/%s" % (c["kind"] + ("-" + c.get("when", "") + "-%dK" % c["stderr_kb"] if c["kind"] == "noisy_ok" else ""),
                          c["flag"])
         stat[key] = stat.get(key, 0) + 1
@@ -313,7 +322,13 @@ def check_pre(ctx, rng, n, big_path, big_bytes):
         else:
             want_status = 2       # the only file's search failed: nothing counts as matched, even under -q
             problem = None
-            if not r["err"] or not named:
+            if c.get("no_messages"):
+                if r["err"]:
+                    problem = "--no-messages, but stderr is not empty"
+                elif r["status"] != want_status:
+                    problem = "--no-messages: status %d, expected %d (only the diagnostic may disappear)" % (
+                        r["status"], want_status)
+            elif not r["err"] or not named:
                 problem = "no diagnostic naming the file"
             elif r["status"] != want_status:
                 problem = "status %d, expected %d" % (r["status"], want_status)
@@ -450,7 +465,8 @@ def check_decompress(ctx, rng, n):
         if trunc:
             comp = comp[:max(1, int(len(comp) * rng.choice([0.3, 0.6, 0.9])))]
         flag = rng.choice([None, None, "-m1", "-q", "-l", "-c"])
-        cases.append(dict(ext=ext, data=data, comp=comp, trunc=trunc, flag=flag, i=i, threads=rng.choice([1, 2])))
+        cases.append(dict(ext=ext, data=data, comp=comp, trunc=trunc, flag=flag, i=i, threads=rng.choice([1, 2]),
+                          no_messages=rng.random() < 0.3))
     jobs = []
     for c in cases:
         name = "f%d.%s" % (c["i"], c["ext"])
@@ -460,7 +476,8 @@ def check_decompress(ctx, rng, n):
         c["name"] = name
         jobs.append(c)
     def run(c):
-        base = ["--color", "never", "-j", str(c["threads"])] + ([c["flag"]] if c["flag"] else [])
+        base = ["--color", "never", "-j", str(c["threads"])] + ([c["flag"]] if c["flag"] else []) + \
+            (["--no-messages"] if c["no_messages"] else [])
         r = K.run_rg(base + ["-z", "-e", "hit", c["name"]], root)
         # what the system's tool writes for this input
         import subprocess
@@ -476,7 +493,8 @@ def check_decompress(ctx, rng, n):
     res = K.pmap(run, live)
     stat = ctx.cov.setdefault("decompress_cases", {})
     for c, (r, ref, tool_rc, tool_err, tool_out) in zip(live, res):
-        key = "%s/%s/%s" % (c["ext"], "truncated" if c["trunc"] else "valid", c["flag"])
+        key = "%s/%s/%s%s" % (c["ext"], "truncated" if c["trunc"] else "valid", c["flag"],
+                              "/no-messages" if c["no_messages"] else "")
         stat[key] = stat.get(key, 0) + 1
         ctx.note_case("z" + repr((c["ext"], c["trunc"], c["flag"], len(c["data"]))), True)
         plain = "p%d.txt" % c["i"]
@@ -492,12 +510,13 @@ def check_decompress(ctx, rng, n):
         else:
             # the tool fails (truncated input): read to the end -> error; cut short and it had complained -> error
             # (model: EClose); cut short before it complained -> timing decides (both accepted)
+            named_ok = (not r["err"]) if c["no_messages"] else (c["name"].encode() in r["err"])
             if not stops:
-                if r["status"] != 2 or c["name"].encode() not in r["err"]:
+                if r["status"] != 2 or not named_ok:
                     ctx.violation("rg -z on a truncated .%s: expected a diagnostic naming the file and status 2" % c["ext"],
                                   replay)
             else:
-                if r["status"] not in (ref["status"], 2) or (r["status"] == 2 and c["name"].encode() not in r["err"]) \
+                if r["status"] not in (ref["status"], 2) or (r["status"] == 2 and not named_ok) \
                         or (r["status"] != 2 and r["err"]):
                     ctx.violation("rg -z on a truncated .%s with an early stop: unexpected status %d" % (c["ext"], r["status"]),
                                   replay)
